@@ -5,6 +5,7 @@ mod lincode;
 mod model;
 mod oracle;
 mod props;
+mod refv;
 mod replay;
 mod schemes;
 mod session;
@@ -51,6 +52,12 @@ fn main() {
                 usage();
             }
             engine::replay_file(&args[2], |id| props::spec(id))
+        }
+        "digest" => {
+            if args.len() < 5 {
+                usage();
+            }
+            props::c18::digest_main(&args[2], &args[3], &args[4])
         }
         "list" => {
             for p in props::ALL {
